@@ -161,6 +161,12 @@ def check(res, rng, dump, cfg, unfiltered, other_dump):
         return wire.stream(d['data'])
     for i, req in enumerate(requests):
         src = dump
+        if i and rng.random() < 0.2:
+            # the configured object is replaced by a checkpoint of itself between two requests (a pickle round trip or a
+            # deep copy: a front end kept in a session store, handed to a worker process)
+            import pickle
+            p = pickle.loads(pickle.dumps(p)) if rng.random() < 0.6 else copy.deepcopy(p)
+            res.count('front_ends_replaced_by_a_checkpoint_between_requests')
         if req == 'traces' and i > 0 and rng.random() < 0.3 and other_dump is not None:
             # a request on a different file in between must not disturb the next one
             try:
